@@ -339,7 +339,8 @@ int main(int argc, char** argv) {
 
   const long per_batch = 50;
   // batches: [0, R) random placements; [R, R+E) exhaustive placements; then negative delays (one
-  // child each: they poison the process); then the weight watcher
+  // child each: the constructor must reject them; should it not, the process state is poisoned);
+  // then the weight watcher
   long R = (n_rand + per_batch - 1) / per_batch, E = n_exh, N = n_neg, W = (n_weight + per_batch - 1) / per_batch;
   return pplv::run_batches(0, R + E + N + W, [&](long b) {
     if (b < R) {
